@@ -7,7 +7,8 @@ LEVEL = 'proof'
 
 
 def snap(G):
-    return sorted((k, sorted(v)) for k, v in G._next.items())
+    # robust against foreign objects leaking into G (that is exactly what an aliasing defect does): order by repr
+    return sorted(((repr(k), sorted(map(repr, v))) for k, v in G._next.items()))
 
 
 def ids(G):
@@ -15,7 +16,10 @@ def ids(G):
 
 
 def gset(G):
-    return (sorted(G._next.keys()), sorted((s, d) for s, ds in G._next.items() for d in ds))
+    try:
+        return (sorted(G._next.keys()), sorted((s, d) for s, ds in G._next.items() for d in ds))
+    except TypeError:          # non-comparable (foreign) nodes: canonicalise by repr; can never equal a model graph of ints
+        return (sorted(map(repr, G._next.keys())), sorted((repr(s), repr(d)) for s, ds in G._next.items() for d in ds))
 
 
 def mset(g):
@@ -26,7 +30,7 @@ def one_case(V, E, X):
     from pyModelChecking.graph import DiGraph
     G = DiGraph(V=V, E=E)
     s0, i0 = snap(G), ids(G)
-    obs = {}
+    obs = {'presentation': graph_sx(G)}      # read BEFORE anything is mutated through copies
     r = call(lambda: G.get_reachable_set_from(list(X)))
     obs['reach'] = ('ok', sorted(r[1])) if r[0] == 'ok' else r
     r = call(lambda: G.get_reversed_graph())
@@ -291,7 +295,7 @@ def run(R):
     cmds, meta = [], []
     for (V, E, X) in cases:
         G, obs = one_case(V, E, X)
-        g = graph_sx(G)
+        g = obs.pop('presentation')
         cmds += [['reach', g, X], ['rev', g], ['sub', g, X], ['clone', g]]
         meta.append((V, E, X, obs, g))
     outs = model_batch_parallel(cmds)
@@ -338,7 +342,7 @@ def replay(R, data):
             R.violation('replayed', d)
         return
     G, obs = one_case(d['V'], [tuple(e) for e in d['E']], d['X'])
-    g = graph_sx(G)
+    g = obs.pop('presentation')
     o = model_batch([['reach', g, d['X']], ['rev', g], ['sub', g, d['X']], ['clone', g]])
     print('impl :', obs)
     print('model:', o)
